@@ -42,7 +42,12 @@ func (h schemasResourceHandler) ResolveFilter(_ common.ResourceQuery[any], opera
 		}
 		return fmt.Sprintf("created_at %s ?", common.ConvertOperatorToSQL(operator)), []any{value}, nil
 	case "version":
-		return fmt.Sprintf("version %s ?", common.ConvertOperatorToSQL(operator)), []any{value}, nil
+		switch operator {
+		case queries.OperatorIn:
+			return "version IN (?)", []any{bun.In(value)}, nil
+		default:
+			return fmt.Sprintf("version %s ?", common.ConvertOperatorToSQL(operator)), []any{value}, nil
+		}
 	default:
 		return "", nil, fmt.Errorf("unknown key '%s' when building query", property)
 	}
